@@ -190,6 +190,33 @@ def r4_collapse_guards(rule, root=None):
         rule.bad("collapse|sentinel", "the NaN-gradient branch marks the leaf with `%s`, but LeafHermiteData::merge refuses to collapse only leaves marked with the sentinel it tests (QEF_ERR_INVALID); such a leaf would be merged with half-recorded intersections" % sentinel, A.where(merge))
 
 
+def r4b_error_flow(rule, root=None):
+    """the collapse test compares a parent's QEF error with the errors its children recorded
+    (`new_err >= hermite.qef_err * 2`); that only rejects anything if every solved vertex stores its error:
+    each `let (pos, err) = <qef>.solve()` must put `err` into a `.qef_err` (a leaf), or compare it with one
+    and store it (a collapse)"""
+    n = 0
+    for fname, ty in (("leaf", "OctreeBuilder"), ("try_collapse", "Octree")):
+        try:
+            fn = A.find_fn(OCT, fname, self_ty=ty, root=root)
+        except A.AnchorLost:
+            continue
+        for l in A.find(fn["body"], "Let"):
+            init = A.strip(l.get("init") or {})
+            p = l["pat"]["pat"] if l["pat"].get("k") == "PType" else l["pat"]
+            if not (init.get("k") == "MethodCall" and init["method"] == "solve" and not init["args"] and p.get("k") == "PTuple" and len(p["elems"]) == 2):
+                continue
+            n += 1
+            err = A.binding_name(p["elems"][1])
+            stored = [a for a in A.find(fn["body"], "Assign") if str(txt(a["left"])).endswith(".qef_err") and A.ident(A.strip(a["right"])) == err] if err else []
+            if stored:
+                rule.ok("%s: the solved vertex's error `%s` is recorded in qef_err" % (fname, err), file=OCT, line=l["ln"])
+            else:
+                rule.bad("collapse|error-flow|%s" % fname, "%s solves a QEF but does not record the error in `.qef_err` (bound as `%s`): the parent's collapse test `new_err >= qef_err * 2` then compares against the 'not populated' sentinel and can never reject a collapse, so two sheets of the surface end up sharing one vertex" % (fname, A.unparse(p["elems"][1])), A.where(fn, l))
+    if n < 2:
+        rule.lost("the two `let (pos, err) = ..solve()` sites (leaf, try_collapse) in octree.rs (found %d)" % n)
+
+
 def run(ctx):
     r = ctx.rule("R1", "dual walk: every recursive face/edge call is geometrically consistent on the sub-cell lattice; frames are right-handed rotations", 39)
     ctx.guarded(r, DW.r1_dual_walk)
@@ -199,3 +226,5 @@ def run(ctx):
     ctx.guarded(r, r3_cells)
     r = ctx.rule("R4", "collapse guards: multi-vertex children, NaN gradients kept out of the QEF, sentinel agreement with merge", 3)
     ctx.guarded(r, r4_collapse_guards)
+    r = ctx.rule("R4b", "every solved QEF vertex records its error, which is what the collapse test compares", 2)
+    ctx.guarded(r, r4b_error_flow)
